@@ -475,3 +475,25 @@ func PanicSite(stack string, fragment string) string {
 	}
 	return "unknown"
 }
+
+// RecoverWithin runs f in its own goroutine and waits at most d for it. A pure function on a small input that
+// does not return within a generous d (seconds where microseconds are expected) is reported as hung; the
+// goroutine is abandoned.  This is the one place where wall-clock time decides: non-termination cannot be
+// observed any other way.
+func RecoverWithin(d time.Duration, f func()) (hung bool, panicked bool, text string) {
+	type res struct {
+		p bool
+		t string
+	}
+	ch := make(chan res, 1)
+	go func() {
+		p, t := Recover(f)
+		ch <- res{p, t}
+	}()
+	select {
+	case r := <-ch:
+		return false, r.p, r.t
+	case <-time.After(d):
+		return true, false, ""
+	}
+}
